@@ -274,6 +274,95 @@ def check(repo: Repo, run: Run) -> None:
             run.inconclusive("C19.V5", f"q|{label}", "q() transforms the text in a way that was not understood (no constant replacement pair for this character was found)")
         else:
             run.ob("C19.V5", f"q|{label}", False, ("q() does not escape " + text) if label != "delimiter" else "q() does not escape the delimiter", mod.loc(q))
+    # V5 (order): the replacements compose.  The ordered pipeline is read off q() (chained .replace calls innermost
+    # first, loops over a constant table in table order, the delimiter step) and applied, as constants, to probe
+    # strings; reading the result back with CEL's escape rules must give the probe.  Escaping the backslash *after* a
+    # step that produced backslashes doubles them (`\n` -> `\\n`).
+    def ordered_steps(stmts, param):
+        steps = []
+
+        def chain(e):
+            e = strip_cast(e)
+            if isinstance(e, ast.Name) and e.id == param:
+                return []
+            if isinstance(e, ast.Call) and isinstance(e.func, ast.Attribute) and e.func.attr == "replace" and len(e.args) == 2:
+                inner = chain(e.func.value)
+                if inner is None:
+                    return None
+                a, b = _tc(mod, e.args[0], qcls, q), _tc(mod, e.args[1], qcls, q)
+                if isinstance(a, str) and isinstance(b, str):
+                    return inner + [(a, b)]
+                if "quote" in ast.unparse(e.args[0]):
+                    return inner + [("<quote>", "\\<quote>")]
+                return None
+            return None
+
+        for st in stmts:
+            if isinstance(st, ast.Assign) and len(st.targets) == 1 and isinstance(st.targets[0], ast.Name) and st.targets[0].id == param:
+                c = chain(st.value)
+                if c is None:
+                    return None
+                steps += c
+            elif isinstance(st, ast.If):
+                inner = ordered_steps(st.body, param)
+                if inner is None:
+                    return None
+                if st.orelse and any(isinstance(x, ast.Assign) for x in st.orelse):
+                    return None
+                steps += inner  # guarded replacements are no-ops when the guard is false
+            elif isinstance(st, ast.For):
+                table = _tc(mod, st.iter, qcls, q)
+                if isinstance(table, dict):
+                    table = list(table.items())
+                if table is None or not isinstance(table, (list, tuple)) or not isinstance(st.target, ast.Tuple) or len(st.target.elts) != 2:
+                    if any(isinstance(x, ast.Assign) and isinstance(x.targets[0], ast.Name) and x.targets[0].id == param for x in ast.walk(st)):
+                        return None
+                    continue
+                a_nm, b_nm = (t.id if isinstance(t, ast.Name) else None for t in st.target.elts)
+                reps = [x for x in ast.walk(st) if isinstance(x, ast.Call) and isinstance(x.func, ast.Attribute) and x.func.attr == "replace" and len(x.args) == 2]
+                if len(reps) != 1 or [ast.unparse(a) for a in reps[0].args] != [a_nm, b_nm]:
+                    return None
+                if not all(isinstance(e, (list, tuple)) and len(e) == 2 and all(isinstance(x, str) for x in e) for e in table):
+                    return None
+                steps += [tuple(e) for e in table]
+            elif isinstance(st, (ast.Return, ast.Expr)):
+                continue
+            elif any(isinstance(x, ast.Name) and x.id == param and isinstance(x.ctx, ast.Store) for x in ast.walk(st)):
+                return None
+        return steps
+
+    qparam = q.args.args[0].arg if q.args.args else "text"
+    steps = ordered_steps(q.body, qparam)
+    if steps is None or not steps:
+        run.inconclusive("C19.V5", "q|order", "the sequence of replacements applied by q() could not be read off")
+    else:
+        def cel_read(s: str) -> str:
+            out, i = [], 0
+            table = {"n": "\n", "r": "\r", "t": "\t", "\\": "\\", '"': '"', "'": "'", "a": "\a", "b": "\b", "f": "\f", "v": "\v"}
+            while i < len(s):
+                if s[i] == "\\" and i + 1 < len(s) and s[i + 1] in table:
+                    out.append(table[s[i + 1]])
+                    i += 2
+                else:
+                    out.append(s[i])
+                    i += 1
+            return "".join(out)
+
+        wrong = None
+        for probe in ("\n", "\\", '"', "a\\nb", "\r", "\t", "\\\"", "x\\", "\\\n"):
+            t = probe
+            for a, b in steps:
+                a2, b2 = a.replace("<quote>", '"'), b.replace("<quote>", '"')
+                t = t.replace(a2, b2)
+            if cel_read(t) != probe and any(ch in probe for a, _ in steps for ch in a.replace("<quote>", '"')):
+                # only characters the pipeline claims to handle are judged here (the others are V5's set rules)
+                if all((ch not in "\r\t") or any(a == ch for a, _ in steps) for ch in probe):
+                    wrong = (probe, t)
+                    break
+        run.ob("C19.V5", "q|order", wrong is None,
+               f"the {len(steps)} replacements of q() compose: every probe reads back as itself under CEL's escape rules" if wrong is None else
+               f"q() applies its replacements in the order {[a for a, _ in steps]}: the policy text {wrong[0]!r} is emitted as {wrong[1]!r}, which CEL reads back as {cel_read(wrong[1])!r} "
+               "(a step that produces backslashes runs before the step that escapes backslashes)", mod.loc(q))
     # V7 -----------------------------------------------------------------
     bad7 = []
     for rname in rewriters:
